@@ -43,6 +43,8 @@ type C16Scenario struct {
 	ViaSubscribe bool `json:"via_subscribe,omitempty"`
 	// RegDuring: another task registers an unrelated upcaster while the upcasting replay runs
 	RegDuring bool `json:"reg_during,omitempty"`
+	// ByOption: the raw upcasters of C are given to New as WithUpcast options (a refused one is dropped silently)
+	ByOption bool `json:"by_option,omitempty"`
 }
 
 // Type names are arbitrary non-empty strings; the pool includes names containing a separator-like
@@ -110,6 +112,7 @@ func genC16(rt *rapid.T) core.Scenario {
 		}
 		sc.ViaSubscribe = rapid.IntRange(0, 2).Draw(rt, "viaSubscribe") == 2
 		sc.RegDuring = rapid.IntRange(0, 2).Draw(rt, "regDuring") == 2
+		sc.ByOption = rapid.IntRange(0, 2).Draw(rt, "byOption") == 2
 	}
 	sc.Tape = core.DrawTape(rt, 200)
 	return sc
@@ -206,7 +209,20 @@ func (sc *C16Scenario) Execute(t *testing.T) *core.Outcome {
 	body := func() {
 		store := eventbus.NewMemoryStore()
 		var upErrs int
-		bus := eventbus.New(eventbus.WithStore(store), eventbus.WithUpcastErrorHandler(func(string, json.RawMessage, error) { upErrs++ }))
+		opts := []eventbus.Option{eventbus.WithStore(store), eventbus.WithUpcastErrorHandler(func(string, json.RawMessage, error) { upErrs++ })}
+		mkUp := func(u C16Up) eventbus.UpcastFunc {
+			ret := c16Name(u.Returns)
+			return func(d json.RawMessage) (json.RawMessage, string, error) {
+				simrt.Yield(siteUpcaster) // every application costs a scheduler step: a spinning apply exhausts the budget
+				return d, ret, nil
+			}
+		}
+		if sc.ByOption {
+			for _, u := range sc.Ups {
+				opts = append(opts, eventbus.WithUpcast(c16Name(u.From), c16Name(u.To), mkUp(u)))
+			}
+		}
+		bus := eventbus.New(opts...)
 		g := c16Graph{}
 		for i, op := range sc.Seq {
 			want, ng := g.apply(op)
@@ -258,11 +274,9 @@ func (sc *C16Scenario) Execute(t *testing.T) *core.Outcome {
 			ctx := context.Background()
 			accepted := 0
 			for _, u := range sc.Ups {
-				ret := c16Name(u.Returns)
-				if eventbus.RegisterUpcastFunc(bus, c16Name(u.From), c16Name(u.To), func(d json.RawMessage) (json.RawMessage, string, error) {
-					simrt.Yield(siteUpcaster) // every application costs a scheduler step: a spinning apply exhausts the budget
-					return d, ret, nil
-				}) == nil {
+				if sc.ByOption {
+					accepted++ // unobservable: the option drops a refused registration silently
+				} else if eventbus.RegisterUpcastFunc(bus, c16Name(u.From), c16Name(u.To), mkUp(u)) == nil {
 					accepted++
 				}
 			}
